@@ -444,6 +444,10 @@ def units():
             u.append(("nldf/%s/%s" % (level, rm), unit_nldf_single(level, rm)))
     u.append(("other-settings", unit_other_settings))
     u.append(("lda", unit_lda))
+    # C back end of the version-j kernels: the interpolation coefficients carry the declared power (shared with C02's summaries of cider_coefs.c)
+    from contracts import c02
+    for order in ("gq", "qg"):
+        u.append(("coef-scaling/" + order, c02.unit_gto_homogeneity(order)))
     return u
 
 
